@@ -187,7 +187,7 @@ int main(int argc, char** argv)
   spec.rule = "case = (mesh file, desired-level string incl. multi-layered hierarchies, ranks P, space); the flow of applications/poisson_dirichlet.cpp "
     "(PartiDomainControl, ScalarUnitFilterSystemLevel gate/muxer/transfer/matrix/filter assembly, PCG with V-cycle multigrid) runs on P rank threads over the MPI model; "
     "default schedule and all schedules with <= D Waitany deviations, both send modes; compared with the P=1 run. Non-trivial = P >= 2.";
-  spec.bounds_quick = "unit-square-quad, levels '3 1' / '3 0' / multi-layered '4 2:1 0', P in {1,2,3,4}(+6,8 default schedule only), Lagrange1 and Lagrange2; <= 1 deviation capped at 40 executions per case and mode";
+  spec.bounds_quick = "unit-square-quad, levels '3 1' / '3 0' / multi-layered '4 2:1 0', P in {1,2,3,4}(+6,8 default schedule only), Lagrange1 and Lagrange2; <= 1 deviation for P <= 4 capped at 300 executions per case and mode";
   spec.bounds_thorough = "as quick plus P in {16}, levels '5 3:2 1:1 0', <= 1 deviation uncapped for P <= 4";
   spec.assumptions = {"MPI behaves as modelled by engine/minimpi", "partitioner: the deterministic 2-level/naive partitioners of the control layer (no third-party partitioner, genetic partitioner off)",
     "equality with the one-process run is required up to 1e-8 relative (iteration counts exactly)"};
@@ -270,7 +270,7 @@ int main(int argc, char** argv)
         g_dead.pre = std::to_string(mode) + ":";
         minimpi::Explorer ex;
         ex.deviation_bound = (P <= 4) ? 1 : 0;
-        ex.max_executions = T ? 2000 : 40;
+        ex.max_executions = T ? 4000 : 300;
         const double t_end = c._deadline;
         ex.stop = [&c, t_end]() { return t_end > 0.0 && c.now() > t_end; };
         std::string failure; std::set<std::string> digests;
@@ -302,6 +302,7 @@ int main(int argc, char** argv)
         }
       }
       c.outcome("iterations=" + std::to_string(int(want[1])));
+      c.outcome("chosen levels " + chosen);
       if(P >= 2) c.nontrivial(verif::Hash().str(cfg.str()).get());
     }
   });
